@@ -74,6 +74,22 @@ pub fn pure_strategy() -> impl Strategy<Value = PureCase> {
     ]
 }
 
+/// the same case space, addressed by the words of a fuzz input (see `crate::words`)
+pub fn pure_from_words(w: &mut crate::words::Words) -> PureCase {
+    use crate::words::draw;
+    let h = w.next();
+    match h % 3 {
+        0 => PureCase::WriteEvent(draw(&straddle(&[4096]), w.next())),
+        1 => PureCase::StatusMessage(draw(&straddle(&[1024]), w.next())),
+        _ => {
+            let n = (h >> 8) % 4;
+            let value = prop::collection::vec(prop_oneof![3 => 0x21u8..0x7f, 1 => 0x80u8..=0xff], 0..12);
+            let headers = (0..n).map(|_| (draw(&crate::gen::sel(crate::props::c04::HNAMES), w.next()), draw(&value, w.next()))).collect();
+            PureCase::SigInput { headers, query: draw(&"[a-z=&%0-9]{0,20}", w.next()) }
+        }
+    }
+}
+
 pub const RULE_PURE: &str = "part A: direct calls of event_logger::write_event (messages with a 2/3/4-byte character placed at every in-character position around byte 4096), AgentStatusSharedState::set_module_status_message + get_module_status (the same around byte 1024) and hyper_client::as_sig_input with header values made of arbitrary visible and obs-text bytes (0x80-0xFF, legal in HTTP field values). oracle: no panic; the truncated status message is valid and bounded. non-trivial: the offset lies strictly inside a multi-byte character, or a header value contains an obs-text byte.";
 
 thread_local! {
@@ -200,6 +216,9 @@ pub struct E2eCase {
     pub policy: u8,
     pub key: bool,
     pub requests: Vec<HostileReq>,
+    /// 0 the caller is alive; 1 it has exited and is not reaped yet (a zombie: no exe link, empty command line); 2 its pid is gone
+    #[serde(default)]
+    pub caller_state: u8,
 }
 
 fn tchar_method() -> impl Strategy<Value = String> {
@@ -245,12 +264,12 @@ pub fn e2e_strategy() -> impl Strategy<Value = E2eCase> {
         any::<bool>(),
         0u8..4,
         any::<bool>(),
-        prop::collection::vec(hostile_req(), 1..4),
+        (prop::collection::vec(hostile_req(), 1..4), prop_oneof![6 => Just(0u8), 2 => Just(1u8), 1 => Just(2u8)]),
     )
-        .prop_map(|(exe_name, wide, wide_count, shift, uid, is_root, policy, key, requests)| E2eCase { exe_name, wide, wide_count, shift, uid, is_root, policy, key, requests })
+        .prop_map(|(exe_name, wide, wide_count, shift, uid, is_root, policy, key, (requests, caller_state))| E2eCase { exe_name, wide, wide_count, shift, uid, is_root, policy, key, requests, caller_state })
 }
 
-pub const RULE_E2E: &str = "part B: through the real listener with a key latched in half of the cases: (i) requests that are syntactically valid by RFC 9112 - extension methods, origin/absolute/asterisk targets, paths ending in arbitrary %XX escapes (any byte value, e.g. %FF, %80, a lone %C3, %00), targets of 1-120 KB, HTTP/1.0, header values with obs-text bytes 0x80-0xFF and tabs, values of 1-9 KB, one header repeated 2-150 times (around hyper's 100-header limit), bodies as Content-Length / chunked / chunked with extensions and a trailer / Expect: 100-continue; (ii) callers = freshly exec'ed helper processes whose executable name and argv contain long runs of 2/3/4-byte characters (300-6000 of them, shifted by 0-7 ASCII bytes) so that the connection-summary JSON and the 'Block unauthorized request' text cross bytes 4096 inside a character, users with multi-byte names from the generated passwd; IMDS under allow / enforce-deny / audit-deny rule sets and WireServer. oracle: the process-wide panic hook stays empty; every request receives a status line; after each case a canary request on a fresh attributed connection is relayed (200) and, every 25th case, status.json written by the real status task has advanced. non-trivial: a caller with >= 300 wide characters, or a header value with an obs-text byte, or a repeated header >= 99 times, or a target >= 60 KB; distinct by hash of the case.";
+pub const RULE_E2E: &str = "part B: through the real listener with a key latched in half of the cases: (i) requests that are syntactically valid by RFC 9112 - extension methods, origin/absolute/asterisk targets, paths ending in arbitrary %XX escapes (any byte value, e.g. %FF, %80, a lone %C3, %00), targets of 1-120 KB, HTTP/1.0, header values with obs-text bytes 0x80-0xFF and tabs, values of 1-9 KB, one header repeated 2-150 times (around hyper's 100-header limit), bodies as Content-Length / chunked / chunked with extensions and a trailer / Expect: 100-continue; (ii) callers = freshly exec'ed helper processes whose executable name and argv contain long runs of 2/3/4-byte characters (300-6000 of them, shifted by 0-7 ASCII bytes) so that the connection-summary JSON and the 'Block unauthorized request' text cross bytes 4096 inside a character, users with multi-byte names from the generated passwd; in a third of the cases the caller has exited by the time its connection is accepted (not yet reaped: no exe link and an empty command line; or its pid is gone); IMDS under allow / enforce-deny / audit-deny rule sets and WireServer. oracle: the process-wide panic hook stays empty; every request receives a status line; after each case a canary request on a fresh attributed connection is relayed (200) and, every 25th case, status.json written by the real status task has advanced. non-trivial: a caller with >= 300 wide characters, or a header value with an obs-text byte, or a repeated header >= 99 times, or a target >= 60 KB; distinct by hash of the case.";
 
 fn deny_all(mode: &str) -> GDoc {
     GDoc {
@@ -347,10 +366,25 @@ pub fn eval_e2e(rig: &Rig, st: &mut E2eState, case: &E2eCase, stats: &mut Stats)
     if case.wide_count > 0 {
         args.push(format!("{}{}", "a".repeat(case.shift), wide_char(case.wide).to_string().repeat(case.wide_count)));
     }
-    let helper = match Helpers::spawn(&[(case.exe_name.clone(), args)]) {
+    let mut helper = match Helpers::spawn(&[(case.exe_name.clone(), args)]) {
         Ok(h) => h,
         Err(e) => return Outcome::fail("rig:cannot-spawn-helper", e),
     };
+    match case.caller_state % 3 {
+        1 => {
+            // exited, not reaped: the pid is still in the process table, /proc/<pid>/exe cannot be resolved, cmdline is empty
+            unsafe { libc::kill(helper.pid(0) as i32, libc::SIGKILL) };
+            std::thread::sleep(Duration::from_millis(5));
+            stats.class("caller:exited-not-reaped");
+        }
+        2 => {
+            let c = &mut helper.procs[0].3;
+            let _ = c.kill();
+            let _ = c.wait();
+            stats.class("caller:pid-gone");
+        }
+        _ => {}
+    }
     let (imds, ws): (Option<GDoc>, Option<GDoc>) = match case.policy % 4 {
         1 => (Some(deny_all("enforce")), None),
         2 => (Some(deny_all("audit")), None),
